@@ -61,6 +61,18 @@ def c01_oracle(full, io, b):
         by = v.get(h, "bytes")
         if by is not None and by.startswith("!"):
             out.append(fail(v, h, "bytes", f"bytes(url) raised for str(url) = {s!r}", "bytes-fails"))
+        # "every '%' in it [the string form] starts an escape of two uppercase hex digits"
+        if RE_PCT_OK.search(s):
+            rest = s
+            if host and "%" in host:
+                # the host is stored lower-case (C16) — including the hex digits of its escapes — and an IPv6 zone id verbatim
+                m_ = re.match(r"^([^/?#]*//(?:[^/?#@]*@)?)(\[?" + re.escape(host) + r"\]?)(.*)\Z", s, re.S)
+                if m_:
+                    rest = m_.group(1) + m_.group(3)
+            if RE_PCT_OK.search(rest):
+                out.append(fail(v, h, "str", f"str(url) = {s!r} contains a '%' that does not start an escape of two uppercase hex digits", "str-bad-escape"))
+            else:
+                out.append(fail(v, h, "str", f"str(url) = {s!r}: a '%' inside the host {host!r} does not start an escape of two UPPER-case hex digits", "percent-in-host"))
         for name, rx in (("raw_user", RE_USERINFO), ("raw_password", RE_USERINFO), ("raw_path", RE_PATH), ("raw_query_string", RE_QF),
                          ("raw_fragment", RE_QF)):
             val = v.get(h, name)
@@ -471,8 +483,43 @@ def c04_oracle(full, io, b):
             continue
         s = v.get(h, "str")
         if s is not None and not s.startswith("!") and dec(s) != src:
-            out.append(fail(v, h, "str", f"str(URL({src!r})) = {dec(s)!r}: an already canonical URL was changed", "canonical-changed"))
+            out.append(fail(v, h, "str", f"str(URL({src!r})) = {dec(s)!r}: an already canonical URL was changed", c04_class(src, dec(s))))
     return out
+
+
+AUTH_SCHEMES = set(up.uses_netloc)
+
+
+def c04_class(src, got):
+    """the listed deviations (KNOWN_FINDINGS.jsonl, C04), each recognised by input shape AND by the exact output the
+    recorded behaviour produces — anything else is an unlisted change of a canonical URL"""
+    m = re.match(r"^(?:([a-z][a-z0-9+.\-]*):)?(//([^/?#]*))?([^?#]*)(\?([^#]*))?(#(.*))?\Z", src, re.S)
+    if not m:
+        return "canonical-changed"
+    scheme, has_auth, auth, path, has_q, query, has_f, frag = m.group(1) or "", m.group(2) is not None, m.group(3) or "", m.group(4), m.group(5) is not None, m.group(6) or "", m.group(7) is not None, m.group(8) or ""
+
+    def unsplit(scheme, auth_defined, auth, path, query, frag):
+        t = (scheme + ":" if scheme else "") + ("//" + auth if auth_defined else "") + path
+        return t + ("?" + query if query else "") + ("#" + frag if frag else "")
+
+    # empty '?' / '#' delimiters are dropped
+    if ((has_q and not query) or (has_f and not frag)) and got == unsplit(scheme, has_auth, auth, path, query, frag):
+        return "empty-delimiter-dropped"
+    # '//' of an EMPTY authority is dropped for schemes that do not take an authority / added for those that do
+    if has_auth and not auth and scheme not in AUTH_SCHEMES and got == unsplit(scheme, False, "", path, query, frag):
+        return "empty-authority-dropped"
+    if not has_auth and scheme in AUTH_SCHEMES and scheme and path.startswith("/") and not path.startswith("//") and got == unsplit(scheme, True, "", path, query, frag):
+        return "authority-scheme-single-slash"
+    # an empty path under an authority gets a '/' in front of '?' / '#'
+    if has_auth and auth and not path and (query or frag) and got == unsplit(scheme, True, auth, "/", query, frag):
+        return "empty-path-before-query"
+    # a literal ':' in the password is escaped
+    if has_auth and "@" in auth:
+        ui, _, hp = auth.rpartition("@")
+        u_, sep, pw = ui.partition(":")
+        if sep and ":" in pw and got == unsplit(scheme, True, u_ + ":" + pw.replace(":", "%3A") + "@" + hp, path, query, frag):
+            return "colon-in-password"
+    return "canonical-changed"
 
 
 def c04_streams(rng, tier, budget):
@@ -505,10 +552,21 @@ def c04_streams(rng, tier, budget):
     for _ in range(n):
         st.obs_all(st.new(canon_url(rng)), ["str"])
     yield "canonical-grammar", st
+    # strings that are canonical BY THE LETTER of the property (every listed condition holds) in the corners the grammar above
+    # avoids: empty '?' / '#', empty authority, empty path before a query, ':' in the password, authority scheme with one slash.
+    # The recorded deviations are matched by shape and exact output (c04_class); anything else is reported.
+    st2 = Stream()
+    for base in ("http://h/a", "http://h/", "x:/p", "/p", "mailto:a", "//h/p", "http://u:p@h:8080/a/b"):
+        for tail in ("?", "#", "?#", "?q#", "?#f"):
+            st2.obs_all(st2.new(base + tail), ["str"])
+    for s0 in ("x:///p", "x://", "svn-x:///a/b?q", "http://h?q", "http://h#f", "//h?q", "ws://h:8080?q#f", "http://u:p:w@h/", "http://u:a:b:c@h/p", "http:/p", "file:/p", "ftp:/a/b?q",
+               "file:///p", "http://:p@h/", "x:", "x:?q", "", "?q", "#f", "a", "a/b?q#f", "./a:b", "http://h/a:b@c", "http://h/?a:b@c/d?e", "http://h/#a:b@c/d?e"):
+        st2.obs_all(st2.new(s0), ["str"])
+    yield "canonical-by-the-letter", st2
 
 
 register(Prop("C04", c04_streams, compare=obs_filter(["str"]), oracle=c04_oracle,
-              assumptions=["canonical grammar excludes IDN hosts and literal ':' in user/password (yarl escapes it there; documented deviation)"]))
+              assumptions=["the random canonical grammar excludes IDN hosts; the corners in which yarl changes a string that is canonical by the letter of the property (empty '?'/'#', empty authority, empty path before a query, ':' in the password, authority scheme with a single slash) are exercised by the 'canonical-by-the-letter' stream and listed as known findings F-C04-*"]))
 
 
 # ------------------------------------------------------------------ C05
@@ -803,6 +861,53 @@ def c07_oracle(full, io, b):
         got_pw = None if rp == "~" else dec(rp)
         if (got_user, got_pw) != (exp_user, exp_pw):
             out.append(fail(v, h, "raw_user", f"authority {auth!r}: user/password = {(got_user, got_pw)!r}, expected {(exp_user, exp_pw)!r}", "authority-split"))
+    # "for every URL the raw accessors re-compose to str(url)" (RFC 3986 5.3 recomposition of scheme, raw_authority, raw_path,
+    # raw_query_string, raw_fragment).  Two recorded deviations are recognised by the exact output they produce.
+    dports = {"http": 80, "https": 443, "ws": 80, "wss": 443, "ftp": 21}
+    for h in range(len(v.cr)):
+        if not v.alive(h):
+            continue
+        vals = [v.get(h, x) for x in ("scheme", "raw_authority", "raw_path", "raw_query_string", "raw_fragment", "str")]
+        if None in vals or any(x.startswith("!") for x in vals):
+            continue
+        sc, au, pa, qu, fr, st_ = (dec(x) for x in vals)
+
+        def comp(au_, pa_, slashes):
+            t = (sc + ":" if sc else "") + ("//" + au_ if (au_ or slashes) else "") + pa_
+            return t + ("?" + qu if qu else "") + ("#" + fr if fr else "")
+        cands = {comp(au, pa, False), comp(au, pa, True)} if not au else {comp(au, pa, False)}
+        if st_ in cands:
+            continue
+        cls = "recompose"
+        # (a) str() omits an explicit port equal to the scheme default (C17), raw_authority keeps it
+        au2 = au
+        m_ = re.match(r"^(.*):([^:\]@]*)\Z", au, re.S)
+        try:
+            pnum = int(m_.group(2)) if m_ else None         # the port text is read by int(): ' 80', '+80', '0080' are 80
+        except ValueError:
+            pnum = None
+        if m_ and pnum is not None and dports.get(sc) == pnum:
+            au2 = m_.group(1)
+        # (b) raw_path is '/' for an empty path under an authority, str() writes nothing there (unless a query/fragment follows)
+        alts = {au}
+        if au2 != au:
+            alts.add(au2)
+            # … the authority is then re-made from raw_user, raw_password and host_subcomponent, which brackets a host only
+            # when it contains ':' (a bracketed host without one, e.g. IPvFuture '[v1.a]', comes back bare)
+            ui_, at_, hp_ = au2.rpartition("@")
+            if hp_.startswith("[") and hp_.endswith("]") and ":" not in hp_:
+                alts.add(ui_ + at_ + hp_[1:-1])
+        pas = [pa] + ([""] if (pa == "/" and au and not qu and not fr) else [])
+        for a_ in alts:
+            for p_ in pas:
+                for sl in ((False, True) if not a_ else (False,)):
+                    if (a_, p_) != (au, pa) and st_ == comp(a_, p_, sl):
+                        cls = "recompose-default-port" if a_ != au else "recompose-empty-path"
+        # (c) a rootless path under a scheme of urllib's uses_netloc is written after '///' (F-C03-rootless)
+        if cls == "recompose" and not au and sc in AUTH_SCHEMES and pa and not pa.startswith("/") and \
+                st_ == sc + ":///" + pa + ("?" + qu if qu else "") + ("#" + fr if fr else ""):
+            cls = "recompose-rootless-authority-scheme"
+        out.append(fail(v, h, "str", f"str(url) = {st_!r} is not the recomposition of scheme {sc!r}, raw_authority {au!r}, raw_path {pa!r}, raw_query_string {qu!r}, raw_fragment {fr!r}", cls))
     return out
 
 
